@@ -472,10 +472,10 @@ Proof.
   - intros t O. exists (off s (thr s t)).
     pose proof (i_in s I t O). pose proof (dist_range (my (thr s t)) (ticket s)) as R.
     fold (off s (thr s t)) in R. split; [lia|].
-    apply (off_iff s (thr s t) _ I); auto using (i_my s I t). lia.
+    apply (off_iff s (thr s t) _ I); auto using (i_my s I t); lia.
   - intros k Hk. destruct (i_surj s I k Hk) as [t [O E]]. exists t. split; [exact O|].
     assert (M : my (thr s t) = wrap (ticket s + k)).
-    { apply (off_iff s (thr s t) k I); auto using (i_my s I t). lia. }
+    { apply (off_iff s (thr s t) k I); auto using (i_my s I t); lia. }
     split; [exact M|]. intros u Ou Eu. apply (i_inj s I); auto. congruence.
   - intros t H. apply (i_held s I). exact H.
 Qed.
@@ -646,15 +646,15 @@ Proof.
   pose proof (dist_range (my (thr s h)) (ticket s)) as Rh. fold (off s (thr s h)) in Rh.
   destruct (In_nth _ _ 0%nat Hin) as [k [Hk Ek]].
   destruct (L1 k Hk) as [Pk Ok]. rewrite Ek in Ok.
-  assert (k = 0%nat) by lia. subst k. cbn [nth] in Ek. subst h.
+  assert (k = 0%nat) by lia. subst k. cbn [nth] in Ek. subst h. cbn [length] in *.
   exists w'. split; [reflexivity|]. split.
   - intros k Hk'. destruct (L1 (S k) ltac:(cbn; lia)) as [P O]. cbn [nth] in P, O.
     assert (nth k w' 0%nat <> t).
-    { intros Z. rewrite Z in O. cbn [length] in O. lia. }
+    { intros Z. rewrite Z in O. lia. }
     unfold off, qlen; cbn [set_thr thr ticket users]. rewrite upd_other by assumption.
-    split; [exact P|]. unfold off in O. cbn [length] in O. lia.
+    split; [exact P|]. unfold off, qlen in O. lia.
   - intros u. cbn [set_thr thr]. thr_cases u t; [contradiction|].
-    intros H. destruct (L2 u H) as [Z|Z]; [congruence|exact Z].
+    intros H0. destruct (L2 u H0) as [Z|Z]; [congruence|exact Z].
 Qed.
 
 Lemma li_tcas s t x w :
@@ -669,7 +669,7 @@ Proof.
   split; [assumption|]. split.
   - intros k Hk. cbn in Hk. lia.
   - intros u. cbn [thr]. thr_cases u t; [contradiction|].
-    intros H. exfalso. apply (NO u). left. exact H.
+    intros H0. exfalso. apply (NO u). left. exact H0.
 Qed.
 
 Lemma li_ustore s t x w :
@@ -789,7 +789,11 @@ Proof.
     pose proof (i_tr (base x) I) as Tr. pose proof (i_ur (base x) I) as Ur.
     pose proof (i_my (base x) I u) as Mu.
     apply (off_iff (base x) (thr (base x) u) _ I) in O; auto; [|lia].
-    rewrite O. unfold wrap, qlen, dist, wrap.
-    rewrite <- Z.add_sub_assoc, <- Z.add_assoc, Zplus_mod_idemp_l.
-    rewrite Zplus_mod_idemp_r. f_equal. lia.
+    rewrite O. unfold qlen, dist, wrap.
+    pose proof (Z.div_mod (users (base x) - ticket (base x)) W ltac:(discriminate)) as D.
+    set (m := (users (base x) - ticket (base x)) mod W) in *.
+    set (q := (users (base x) - ticket (base x)) / W) in *.
+    replace (ticket (base x) + (m - Z.of_nat (length w) + Z.of_nat k))
+      with (users (base x) - Z.of_nat (length w) + Z.of_nat k + (- q) * W) by lia.
+    apply Z_mod_plus_full.
 Qed.
